@@ -90,14 +90,18 @@ func runC09(s *core.Sim, tier string) RunInfo {
 	// sometimes nobody is connected yet when Head(WithTrustedHead) is called: the peer tracker is
 	// empty and the request falls back to the trusted peers - whose answers are still only to be
 	// believed as far as they verify against the trusted head
-	connect := all
-	if withTrusted && s.Tape.Coin("no-tracked-peers", 1, 3) {
-		connect = nil
-		s.Probe("trusted-head-with-empty-tracker")
-	}
-	if err := w.StartClient(w.PeerIDs(all...), connect, p2p.WithRequestTimeout[p2p.ClientParameters](time.Second)); err != nil {
+	emptyTracker := withTrusted && s.Tape.Coin("no-tracked-peers", 1, 3)
+	if err := w.StartClient(w.PeerIDs(all...), all, p2p.WithRequestTimeout[p2p.ClientParameters](time.Second)); err != nil {
 		s.Aborted = "client start: " + err.Error()
 		return RunInfo{}
+	}
+	if emptyTracker {
+		// every connection is lost before the call: the tracker holds no connected peer
+		for _, i := range all {
+			_ = w.Net.DisconnectPeers(w.Hosts[0].ID(), w.Hosts[i].ID())
+		}
+		s.Quiesce(500 * time.Millisecond)
+		s.Probe("trusted-head-with-empty-tracker")
 	}
 	// record the order in which replies are released by the scheduler: wrap the
 	// script's arrival record with the moment the reply is actually written.
@@ -137,8 +141,8 @@ func runC09(s *core.Sim, tier string) RunInfo {
 	// --- the statement, replayed over what the asked peers supplied
 	n := len(asked)
 	wantAsked := np
-	if withTrusted && np > 4 {
-		wantAsked = 4
+	if withTrusted && np > 4 && !emptyTracker {
+		wantAsked = 4 // (with nobody tracked the request falls back to all trusted peers)
 	}
 	if n > wantAsked || n == 0 {
 		s.Violate("asked-peers", at, "%d peers were asked, expected at most %d of %d [%v]", n, wantAsked, np, desc)
